@@ -395,30 +395,35 @@ theorem declaration_agrees (root : Str) (sub : Str → Str) (row : Cells) :
 
 /-- the three facts about sheet and settings that shape the meta block, read as C04's `Rows.metaKids` reads them -/
 def metaCfg (settings : Cells) (survey : List Cells) : Spec.MetaCfg :=
-  { audit := survey.any fun r => Rows.get r "type" = some "audit".toList &&
-      !(match Rows.get r "disabled" with | some v => Rows.yesNoTrue v | none => false)
+  { audit := (survey.filter Rows.isAuditRow).length
     omitInstanceID := match Rows.get settings "omit_instanceID" with | some v => Rows.yesNoTrue v | none => false
     instanceName := Rows.has settings "instance_name" }
 
-/-- **meta_children_table.**  For every sheet and settings row, i.e. for each of the eight combinations of
-    audit row / `omit_instanceID` / `instance_name`: the children of the generated meta group are `audit`,
-    `instanceID`, `instanceName` (each iff prescribed, in this order — `Rows.metaKids`, C04) followed by the entity
-    declaration iff an entity is declared.  In particular the declaration does not depend on the other three. -/
+theorem audit_names (l : List Cells) :
+    ((l.map fun _ => Rows.auditQ).map fun d => d.name) = List.replicate l.length (Spec.S "audit") := by
+  induction l with
+  | nil => rfl
+  | cons a l ih => simp only [List.map_cons, List.length_cons, List.replicate_succ, ih]; rfl
+
+/-- **meta_children_table.**  For every sheet and settings row: the children of the generated meta group are one
+    `audit` per enabled audit row (converted forms have at most one: `Pyxv.C02.at_most_one_audit`), then
+    `instanceID` unless omitted, then `instanceName` if set (`Rows.metaKids`, C04) — for each of the four
+    combinations of the two settings — followed by the entity declaration iff an entity is declared.  In
+    particular the declaration does not depend on the other children. -/
 theorem meta_children_table (settings : Cells) (survey : List Cells) (e : Bool) :
     metaChildren settings survey e =
       Spec.metaKids (metaCfg settings survey).audit (metaCfg settings survey).omitInstanceID
         (metaCfg settings survey).instanceName e := by
   unfold metaChildren Rows.metaKids Spec.metaKids metaCfg
   rw [entity_name_eq]
-  generalize (survey.any fun r => Rows.get r "type" = some "audit".toList &&
-      !(match Rows.get r "disabled" with | some v => Rows.yesNoTrue v | none => false)) = a
+  simp only [List.map_append, audit_names]
   generalize Rows.has settings "instance_name" = c
   cases hget : Rows.get settings "omit_instanceID" with
-  | none => cases a <;> cases c <;> cases e <;> rfl
+  | none => cases c <;> cases e <;> rfl
   | some v =>
     simp only
     rcases Bool.eq_false_or_eq_true (Rows.yesNoTrue v) with hb | hb <;> simp only [hb] <;>
-      cases a <;> cases c <;> cases e <;> rfl
+      cases c <;> cases e <;> rfl
 
 /-- **entity_in_meta.**  In every converted form the declaration is a child of `meta` iff an entity is declared,
     and then it is the *last* child, whatever the settings (omit_instanceID, instance_name) and audit rows are;
